@@ -60,7 +60,8 @@ def noeff1(cfg):
                 continue
             res.ob(ok, {'rule': 'NOEFF-1', 'function': name, 'site': fileline(f.loc), 'exit': rc, 'effect': bool(eff), 'verdict': 'discharged' if ok else 'VIOLATION'})
             if not ok:
-                res.find(f, f.loc, '%s %s' % (name, why), key='NOEFF-1:%s:%s' % (f.short, rc), config=cfg.name)
+                ew = s.exit_why.get((True, rc)) if eff else None
+                res.find(f, (ew[1] if ew and ew[1] else f.loc), '%s %s%s' % (name, why, ' [first effect on the path: %s]' % ew[0] if ew else ''), key='NOEFF-1:%s:%s' % (f.short, rc), config=cfg.name)
         if not any(rc == 'true' for (_, rc) in s.exits) or not any(rc == 'false' for (_, rc) in s.exits):
             res.incompl('NOEFF-1: %s has no %s exit' % (name, 'true' if not any(rc == 'true' for (_, rc) in s.exits) else 'false'))
     res.floor('point-operation functions', 30)
@@ -853,3 +854,34 @@ def _ev(ev):
     if ev[0] == 'range':
         return '%s(%s)' % (ev[1], ', '.join(ev[2]))
     return '%s %s' % (ev[1], ev[2])
+
+
+# ---------------------------------------------------------------------------------------------------------------- LOCK-10
+def lock10(cfg):
+    res = RuleResult('LOCK-10', 'obsoletion is a point of no return: on no path of an OLC operation or helper is a node marked obsolete (unlock_and_obsolete / obsolete) and the attempt then abandoned with a restart result - the obsolete node would stay linked, and every later get / insert / remove / scan that reaches it restarts for ever (path-sensitive effect flow with callee summaries; effect = obsoletion only)')
+    an = effectflow.Effects(cfg, obsolete_only=True)
+    fns = [f for f in cfg.functions if f.blocks and ('olc' in f.sig) and (f.cls.startswith('unodb::olc_db<') or re.match(r'^unodb::detail::olc_impl_helpers::', f.name) or 'olc_inode' in f.cls or ('unodb::olc_db' in f.cls and 'basic_inode' in f.cls))]
+    nobs = 0
+    for f in fns:
+        direct = [e for b, i, e in f.elements() if e.get('k') == 'call' and e.get('name') in ('unlock_and_obsolete', 'obsolete', 'obsolete_child_by_index') and not is_assert_elem(e)]
+        s = an.summary(f)
+        if not s.effect_any:
+            continue
+        res.count('functions on whose paths a node is obsoleted')
+        res.functions.add(f.sig)
+        nobs += len(direct)
+        for (eff, rc) in sorted(s.exits, key=str):
+            if not eff:
+                continue
+            # restart results: an empty optional, or `false` of the bool-returning try_* functions of the iterator
+            restart = rc == 'empty' or (rc == 'false' and f.short.startswith('try_') and (f.ret or '') == 'bool')
+            ok = not restart
+            res.ob(ok, {'rule': 'LOCK-10', 'function': sh(f.name)[:90], 'site': fileline(f.loc), 'exit_after_obsoletion': rc, 'verdict': 'discharged' if ok else 'VIOLATION'})
+            if not ok:
+                ew = s.exit_why.get((True, rc))
+                res.find(f, (ew[1] if ew and ew[1] else f.loc), '%s returns a restart result after %s: the obsolete node is still linked in the tree when the attempt is abandoned, so every operation that reaches it - including the retry of this one - restarts for ever (no thread holds a lock, yet none can pass)' % (f.short, ew[0] if ew else 'an obsoletion'),
+                         key='LOCK-10:%s' % f.short, config=cfg.name)
+    res.count('obsoletion sites', nobs)
+    res.floor('functions on whose paths a node is obsoleted', 10)
+    res.floor('obsoletion sites', 10)
+    return res
